@@ -224,6 +224,13 @@ def check_forwarder(ctx, F, imp, b, tn, m, tgt, kind, key):
         elif c.name in ("sort", "sort_by", "sort_by_key", "sort_unstable", "sort_unstable_by", "sort_unstable_by_key", "dedup", "dedup_by", "dedup_by_key", "reverse", "rev") and \
                 ("slice" in (c.def_ or "") or "Vec" in (c.def_ or "") or "SmallVec" in (c.def_ or "") or "Iterator" in (c.def_ or "")):
             reshaped.append((c.bb, c.name))
+    # the sample group a wrapper reports is the wrapped values' groups, whole: no element is filtered out, skipped or cut off
+    if m == "sample_group":
+        for u_ in [b] + list(F.closures_of(b)):
+            for c in u_.calls():
+                if c.name in ("filter", "filter_map", "skip", "skip_while", "take", "take_while", "step_by", "retain", "dedup_by_key", "map_while") and \
+                        ("Iterator" in (c.def_ or "") or "Vec" in (c.def_ or "") or "SmallVec" in (c.def_ or "")):
+                    reshaped.append((c.bb if u_ is b else 0, "%s on the sample group" % c.name))
     # also the return type of the bridge method itself
     rty = b.locals[0]["ty"] if b.locals else ""
     if any(k in rty for k in ("BTreeMap<", "HashMap<", "BTreeSet<", "HashSet<")):
